@@ -375,4 +375,51 @@ def t_frame_z(eng):
 
 U_FRAME = Unit(P + '/frame-matrix-independent-of-sources', [], t_frame_z, SCH, kind='frame')
 
-UNITS = [U_RHS, U_RHS_LIN, U_CUR, U_SOLVE, U_DBI, U_EXC, U_ASM, U_COMPUTE, U_FRAME]
+
+# ---------------------------------------------------------------- Mininec.compute: the total power, executed for two sources
+def t_compute_power(eng):
+    """the real Mininec.compute with its four stages summarised, for two sources with arbitrary complex voltages on arbitrary
+    pulses of a three-pulse model: the power that normalises the far field and scales the near field is the NET input power
+    sum over the sources of Re (V conj (I)) / 2 -- signed (a feed that absorbs power counts negative)."""
+    n = P + '/Mininec.compute[two sources]/'
+    m = SObj('Mininec', label='m')
+    for q in ('compute_impedance_matrix', 'compute_impedance_matrix_loads', 'compute_rhs', 'compute_currents'):
+        eng.summaries['Mininec.' + q] = lambda e, a, k: None
+    cur = NDArr([fresh_cx('I%d' % k) for k in range(3)])
+    m.fields['current'] = cur
+    srcs = []
+    for k in range(2):
+        sx = SObj('Excitation', label='src%d' % k)
+        ix = eng.choose(3)
+        sx.fields.update({'idx': ix, 'parent': m, 'voltage': fresh_cx('V%d' % k)})
+        srcs.append((sx, ix))
+    m.fields['sources'] = SList([('conc', [x for x, _ in srcs])])
+    eng.inline.update(['Excitation.current', 'Excitation.power'])
+    eng.call_qual('Mininec.compute', [m])
+    eng.cover('compute-power')
+    want = 0
+    for sx, ix in srcs:
+        want = r_add(want, r_div(c_mul(sx.fields['voltage'], c_conj(cur.data[ix])).re, 2))
+    pw = m.fields.get('power')
+    if isinstance(pw, CX):
+        eng.oblige(n + 'power-is-real', r_cmp('==', pw.im, 0))
+        pw = pw.re
+    eng.oblige(n + 'power-is-the-net-input-power-sum-of-Re(V-conj-I)/2', pw is not None and bterm(r_cmp('==', pw, want)))
+
+
+class _PowerOfMagnitudes(ast.NodeTransformer):
+    def visit_Assign(self, node):
+        if ast.unparse(node.targets[0]) == 'self.power':
+            for t in ast.walk(node.value):
+                if isinstance(t, ast.Attribute) and t.attr == 'power' and isinstance(t.ctx, ast.Load):
+                    pass
+            node.value = ast.parse('sum (abs (s.power) for s in self.sources)').body[0].value
+        return node
+
+
+U_POWER2 = Unit(P + '/Mininec.compute-power', ['Mininec.compute', 'Excitation.power', 'Excitation.current'], t_compute_power, SCH,
+                notes='bounded(shape): two sources on a three-pulse model, every pulse assignment; voltages and currents symbolic',
+                canaries=[Canary('power-summed-by-magnitude', 'Mininec.compute', _PowerOfMagnitudes,
+                                 [P + '/Mininec.compute[two sources]/power-is-the-net'])])
+
+UNITS = [U_RHS, U_RHS_LIN, U_CUR, U_SOLVE, U_DBI, U_EXC, U_ASM, U_COMPUTE, U_POWER2, U_FRAME]
